@@ -38,6 +38,8 @@ pub fn capture_stdout() {
         let devnull = libc::open(b"/dev/null\0".as_ptr() as *const libc::c_char, libc::O_WRONLY);
         if devnull >= 0 {
             libc::dup2(devnull, 1);
+            // the library also prints warnings to stderr (once per case); drop them too
+            libc::dup2(devnull, 2);
             libc::close(devnull);
             OUT_FD.store(saved as usize, Ordering::SeqCst);
         }
